@@ -2885,7 +2885,11 @@ func (r *Runtime) ForOf(iterable Value, step func(curValue Value) (continueItera
 				continueIteration = step(value)
 			})
 			if ex != nil {
-				iter.returnIter()
+				// IteratorClose with a throw completion: whatever return() throws (or a non-object result) is ignored,
+				// the exception of the loop body wins. (try re-panics interrupts / stack overflows.)
+				_ = r.vm.try(func() {
+					iter.returnIter()
+				})
 				panic(ex)
 			}
 			if !continueIteration {
